@@ -9,7 +9,7 @@ EXC = (ValueError, TypeError, AttributeError, KeyError, IndexError)
 KINDS = ["composeinfo", "images", "rpms", "modules", "extra"]
 OTHER_TYPE = {"composeinfo": "productmd.images", "images": "productmd.rpms", "rpms": "productmd.composeinfo",
               "modules": "productmd.rpms", "extra": "productmd.modules", "treeinfo": "productmd.discinfo"}
-BAD_VERSIONS = ["1", "1.2.3", "v1.2", "", "1,2", None, 1.2, "one.two"]
+BAD_VERSIONS = ["1", "1.2.3", "v1.2", "", "1,2", None, 1.2, "one.two", "102", "1_2", "0012", "1x2", "1-2", "1 2"]
 
 
 def impl_valid_doc(case):
@@ -56,7 +56,7 @@ def gen_content(rng, kind, R):
 # fields whose loaded value is NOT coerced by the reader: a value outside the domain must be rejected
 STRICT = {
     "compose": {"id": CR.COMPOSE["id"], "type": CR.COMPOSE["type"], "date": CR.COMPOSE["date"], "respin": CR.COMPOSE["respin"],
-                "label": ["GA", "RC-1", 5, "Beta-1.0.1", "rc-1.0"]},
+                "label": ["GA", "RC-1", 5, "Beta-1.0.1", "rc-1.0", "RC-100", "RC-1x0", "Beta-1-2", "Update-2_10", "EA-123456"]},
     "release": {"name": [None, 5], "short": [None, 5], "version": ["1.", "1..2", None, 5, "1a", ""], "type": ["bogus", None, 5]},
     "base_product": {"name": [None, 5], "short": [None, 5], "version": ["1.", None, "1a"], "type": ["bogus", None, "GA", "Eus"]},
     "variant": {"id": ["bad-id", "", None, 5], "uid": ["Misaligned", None, 5], "name": ["", None, 5], "type": ["bogus", None], "arches": [[], None, 5]},
@@ -210,7 +210,7 @@ def ti_corruptions(rng, table, n):
             t["header"]["type"] = "productmd.images"
             what = "header-type"
         elif k < 0.2:
-            t["header"]["version"] = rng.choice(["1", "1.2.3", "v1.2", "one.two", "1,2"])
+            t["header"]["version"] = rng.choice(["1", "1.2.3", "v1.2", "one.two", "1,2", "102", "1_2", "0012", "1x2"])
             what = "header-version"
         elif k < 0.45:
             sec, key = rng.choice([("release", "name"), ("release", "version"), ("tree", "arch"), ("tree", "platforms"),
